@@ -9,7 +9,8 @@ Litmus file format, one entry per program:
     -- name: <identifier>
     -- expect: <status> [| log: <entry>; <entry> ...] [| ret: <v>, <v> ...]
     [-- env: assert=identity profile=noop gname=X gval=<scalar>]
-    [-- module: <require string>       (module source follows; repeatable)
+    [-- module: <require string>[|<alias>...]   (module source follows; repeatable; aliases are further
+                                                require strings denoting the same module)
      ...
      -- main:]
     <program text up to the next "-- name:" line>
@@ -175,7 +176,9 @@ def main():
                     mp = parse_program("\n".join(md["src"]), parser)
                 except Exception as ex:
                     raise SystemExit("parse error in module %s of %s: %s" % (md["s"], e["name"], ex))
-                prog["req"].append({"s": md["s"], "root": merge_module(prog, mp)})
+                root = merge_module(prog, mp)
+                for alias in md["s"].split("|"):      # `-- module: ./a|./x/../a`: several spellings, one module
+                    prog["req"].append({"s": alias, "root": root})
             case = {"id": e["name"], "mode": "run", "a": prog, "enva": env_record(e["env"])}
             out.write(json.dumps(case, ensure_ascii=True, separators=(",", ":")) + "\n")
             expect[e["name"]] = parse_expect(e["expect"])
